@@ -452,9 +452,17 @@ def guarded_primitives(prog, an, rep, pid):
         pushes = [n for n in c.nodes.values() if n.kind == 'stmt' and any(
             isinstance(x, ast.Call) and isinstance(x.func, ast.Attribute)
             and x.func.attr == 'push' for x in ast.walk(n.ast))]
-        var = 'do_push'
+        # the flag: the do_push parameter, or the local(s) that hold the
+        # do_push keyword popped from **kwargs
+        from ..rules import locals_bound_to
+        kwv = f.node.args.kwarg.arg if f.node.args.kwarg else None
+        flags = ['do_push'] if 'do_push' in f.params else (
+            locals_bound_to(f, pred=lambda t: t in (
+                "%s.pop('do_push', False)" % kwv,
+                "%s.get('do_push', False)" % kwv)) if kwv else [])
+        var = flags[0] if flags else 'do_push'
         gates = an.branch_nodes(
-            f, lambda e: isinstance(e, ast.Name) and e.id == var, True)
+            f, lambda e: isinstance(e, ast.Name) and e.id in flags, True)
         rep.floor('%s push statements in Branch.%s' % (pid, name),
                   len(pushes), 1)
         for p_ in pushes:
@@ -467,8 +475,7 @@ def guarded_primitives(prog, an, rep, pid):
         # do_push comes from the keyword / parameter, not from a constant
         st = stores_to(f, var)
         if name == 'merge':
-            ok = len(st) == 1 and st[0][1] is not None and \
-                src(st[0][1]) == "kwargs.pop('do_push', False)"
+            ok = len(st) == 1 and st[0][1] is not None and bool(flags)
             rep.check(ok, pid + '.KWC.do-push-default', f.qname +
                       ': do_push defaults to False', f.where(),
                       'do_push of Branch.merge is bound as %s' %
@@ -527,9 +534,15 @@ def per_author_options(prog, an, rep, pid):
                 len(lp.target.elts) == 2):
             continue
         user, lst = (src(e) for e in lp.target.elts)
+        # the result: what the function returns, filled per author
+        returned = {src(r.value) for r in walk_local(f.node,
+                                                     include_root=False)
+                    if isinstance(r, ast.Return) and r.value is not None}
         for st in walk_local(lp, include_root=False):
             if isinstance(st, ast.Assign) and \
-                    src(st.targets[0]) == 'res[%s]' % user:
+                    isinstance(st.targets[0], ast.Subscript) and \
+                    src(st.targets[0].value) in returned and \
+                    src(st.targets[0].slice) == user:
                 detail = src(st.value)
                 comp = [x for x in ast.walk(st.value)
                         if isinstance(x, (ast.ListComp, ast.GeneratorExp,
@@ -550,7 +563,7 @@ def per_author_options(prog, an, rep, pid):
               'for another one' % detail, detail=detail)
     # unknown names are rejected
     c = an.cfg(f)
-    bad = cond_branches(an, f, re.compile(r'^\w+ in self\.BYPASS_LIST$'),
+    bad = cond_branches(an, f, re.compile(r'^.+ in self\.BYPASS_LIST$'),
                         False)
     okr = False
     from .c12 import _first_exit
